@@ -61,11 +61,12 @@ Section AddAt.
 
   Lemma add_at_ok :
     spec_read bs' = Some (hdr, m, kv, limit, map (map (setval (r_off r0) v')) tbl) /\
-    handle_ok meta hdr bs' /\ tail_zero bs' hdr /\ len bs' = len bs.
+    handle_ok meta hdr bs' /\ tail_zero bs' hdr /\ len bs' = len bs /\ tail4_same bs bs'.
   Proof.
     pose proof (spec_read_inv _ _ _ _ _ _ Hread) as (Eh & Ek & El & H1 & H2 & H3 & H4 & H5 & Ht & Hp).
     pose proof (wf_record_in _ _ _ _ _ Ht Hin) as [Hri _].
-    pose proof (rec_in_facts _ _ _ _ Hri H3) as (_ & _ & _ & _ & _ & _ & _ & Ev).
+    pose proof (rec_in_facts _ _ _ _ Hri H3) as (_ & _ & _ & _ & F5 & _ & _ & Ev).
+    pose proof (rec_size_pos (len (r_name r0))) as Hpos.
     assert (Hv : v' < 18446744073709551616) by (unfold v', u64; apply N.mod_lt; lia).
     pose proof (setval_all bs hdr m kv limit tbl Hread r0 v' Hin Hv) as (S1 & S2 & S3 & S4 & S5).
     assert (Eb : bs' = put bs (r_off r0) (le64 v')).
@@ -74,7 +75,9 @@ Section AddAt.
     assert (Hag : forall lo hi, hi <= r_off r0 \/ r_off r0 + 8 <= lo ->
                                 agree bs (put bs (r_off r0) (le64 v')) lo hi).
     { intros lo hi A. apply agree_put; rewrite len_le64; [lia|exact A]. }
-    split; [exact S1|]. split; [|split; [|exact S2]].
+    split; [exact S1|]. split; [|split; [|split; [exact S2|]]].
+    3:{ intros i Hi1 Hi2. symmetry. apply (Hag i (i + 1)); try lia.
+        assert (r_off r0 + rec_size (len (r_name r0)) <= 16352 \/ 16384 <= r_off r0) by divlia. lia. }
     - destruct Hhandle as (h0 & Hm0 & Hp0 & E0). exists h0. repeat split; try assumption.
       pose proof (mapped_header_len _ _ Hm0) as (_ & _ & Hb & _).
       eapply has_prefix_agree; [exact Hp0|rewrite S2; lia|]. apply Hag. lia.
@@ -111,6 +114,7 @@ Definition records_step (o : op) (r : op_result) (rs rs' : list rec) : Prop :=
 Lemma step_inv s o rs : Inv s -> small s -> reads s rs ->
   let '(r, s') := step s o in
   Inv s' /\ ok_result o r /\ limit_of (w_bs s) <= limit_of (w_bs s') /\ len (w_bs s) <= len (w_bs s') /\
+  tail4_same (w_bs s) (w_bs s') /\
   exists rs', reads s' rs' /\ records_step o r rs rs'.
 Proof.
   intros HI Hs Hr. pose proof HI as [(m & kv & limit & tbl & Hread) Hh Ht].
@@ -125,6 +129,7 @@ Proof.
     { unfold new_counter. destruct (N.eqb_spec (len name) 0) as [_|X]; [|contradiction]. cbn [nc_to_op].
       destruct s as [sm sh sb]; cbn [w_meta w_hdr w_bs] in *.
       split; [exact HI|]. split; [reflexivity|]. split; [lia|]. split; [lia|].
+      split; [intros i _ _; reflexivity|].
       exists (concat tbl). split; [exact Hr|reflexivity]. }
     destruct (N.ltb_spec 4096 (len name)) as [Hlong|Hlen].
     + unfold new_counter. change c_maxNameLen with 4096.
@@ -132,18 +137,19 @@ Proof.
       destruct (N.ltb_spec 4096 (len name)) as [_|X]; [|lia]. cbn [nc_to_op].
       destruct s as [sm sh sb]; cbn [w_meta w_hdr w_bs] in *.
       split; [exact HI|]. split; [reflexivity|]. split; [lia|]. split; [lia|].
+      split; [intros i _ _; reflexivity|].
       exists (concat tbl). split; [exact Hr|reflexivity].
     + pose proof (new_counter_wf (w_meta s) (w_hdr s) (w_bs s) m kv limit tbl name Hread Hh Ht Hs
                     ltac:(lia)) as P.
       destruct (new_counter (w_meta s) (w_hdr s) (w_bs s) name) as [r bs']. cbn [fst snd] in P.
-      destruct P as (off & limit' & tbl' & rcd & -> & R' & Hl & Hlen1 & Hlen2 & Hh' & Ht' & Hin & Eo & En & Hcase).
+      destruct P as (off & limit' & tbl' & rcd & -> & R' & Hl & Hlen1 & Hlen2 & Hh' & Ht' & Ht4 & Hin & Eo & En & Hcase).
       cbn [nc_to_op].
       assert (HI' : Inv {| w_meta := w_meta s; w_hdr := w_hdr s; w_bs := bs' |}).
       { constructor; cbn [w_meta w_hdr w_bs]; [exists m, kv, limit', tbl'; exact R'|exact Hh'|exact Ht']. }
       pose proof (Inv_limit _ HI') as [EL' _]. cbn [w_bs w_hdr] in EL'.
       split; [exact HI'|]. split; [exists off; reflexivity|]. cbn [w_bs].
       pose proof (spec_read_inv _ _ _ _ _ _ R') as (_ & _ & El' & _).
-      split; [rewrite ELs, EL', <- El, <- El'; exact Hl|]. split; [exact Hlen1|].
+      split; [rewrite ELs, EL', <- El, <- El'; exact Hl|]. split; [exact Hlen1|]. split; [exact Ht4|].
       exists (concat tbl'). split; [exists m, kv, limit', tbl'; now split|].
       exists rcd. repeat split; try assumption.
       destruct Hcase as [(_ & -> & _)|(V0 & HA & Hf)]; [now left|right; repeat split; assumption].
@@ -152,6 +158,7 @@ Proof.
     { unfold new_counter. destruct (N.eqb_spec (len name) 0) as [_|X]; [|contradiction]. cbn [nc_to_op].
       destruct s as [sm sh sb]; cbn [w_meta w_hdr w_bs] in *.
       split; [exact HI|]. split; [reflexivity|]. split; [lia|]. split; [lia|].
+      split; [intros i _ _; reflexivity|].
       exists (concat tbl). split; [exact Hr|reflexivity]. }
     destruct (N.ltb_spec 4096 (len name)) as [Hlong|Hlen].
     + unfold new_counter. change c_maxNameLen with 4096.
@@ -159,20 +166,22 @@ Proof.
       destruct (N.ltb_spec 4096 (len name)) as [_|X]; [|lia]. cbn [nc_to_op].
       destruct s as [sm sh sb]; cbn [w_meta w_hdr w_bs] in *.
       split; [exact HI|]. split; [reflexivity|]. split; [lia|]. split; [lia|].
+      split; [intros i _ _; reflexivity|].
       exists (concat tbl). split; [exact Hr|reflexivity].
     + pose proof (new_counter_wf (w_meta s) (w_hdr s) (w_bs s) m kv limit tbl name Hread Hh Ht Hs
                     ltac:(lia)) as P.
       destruct (new_counter (w_meta s) (w_hdr s) (w_bs s) name) as [r bs']. cbn [fst snd] in P.
-      destruct P as (off & limit' & tbl' & rcd & -> & R' & Hl & Hlen1 & Hlen2 & Hh' & Ht' & Hin & Eo & En & Hcase).
+      destruct P as (off & limit' & tbl' & rcd & -> & R' & Hl & Hlen1 & Hlen2 & Hh' & Ht' & Ht4 & Hin & Eo & En & Hcase).
       subst off.
       pose proof (add_at_ok (w_meta s) (w_hdr s) bs' m kv limit' tbl' rcd delta R' Hh' Ht' Hin)
-        as (A1 & A2 & A3 & A4).
+        as (A1 & A2 & A3 & A4 & A5).
       assert (HI' : Inv {| w_meta := w_meta s; w_hdr := w_hdr s; w_bs := add_at bs' (r_off rcd) delta |}).
       { constructor; cbn [w_meta w_hdr w_bs]; [eexists m, kv, limit', _; exact A1|exact A2|exact A3]. }
       pose proof (Inv_limit _ HI') as [EL' _]. cbn [w_bs w_hdr] in EL'.
       split; [exact HI'|]. split; [eexists; reflexivity|]. cbn [w_bs].
       pose proof (spec_read_inv _ _ _ _ _ _ A1) as (_ & _ & El' & _).
       split; [rewrite ELs, EL', <- El, <- El'; exact Hl|]. split; [rewrite A4; exact Hlen1|].
+      split; [intros i Hi1 Hi2; rewrite (A5 i Hi1 Hi2); now apply Ht4|].
       eexists. split; [eexists m, kv, limit', _; split; [exact A1|reflexivity]|].
       exists rcd, (concat tbl'). repeat split; try assumption.
       * destruct Hcase as [(_ & -> & _)|(V0 & HA & Hf)]; [now left|right; repeat split; assumption].
@@ -190,16 +199,18 @@ Proof.
     split; [exact HI'|]. split; [reflexivity|]. cbn [w_bs].
     split.
     { rewrite ELs, EL'. rewrite (get32_agree (w_bs s) (w_bs s ++ zeros k)) by apply agree_app_zeros. lia. }
-    split; [rewrite len_app; lia|].
+    split; [rewrite len_app; lia|]. split; [intros i _ _; apply getb_app_zeros|].
     exists (concat tbl). split; [exists m, kv, limit, tbl; now split|reflexivity].
   - (* OpReopen *)
     destruct (mapped_header meta') as [h'|] eqn:Hm'.
     2:{ unfold open_mapped. rewrite Hm'.
         split; [exact HI|]. split; [now right|]. split; [lia|]. split; [lia|].
+        split; [intros i _ _; reflexivity|].
         exists (concat tbl). split; [exact Hr|reflexivity]. }
     rewrite (open_mapped_big _ _ _ Hm') by exact H2.
     destruct (has_prefix (w_bs s) h') eqn:Hp'.
     2:{ split; [exact HI|]. split; [now right|]. split; [lia|]. split; [lia|].
+        split; [intros i _ _; reflexivity|].
         exists (concat tbl). split; [exact Hr|reflexivity]. }
     pose proof (prefix_len_field _ _ _ Hm' Hp') as E28.
     pose proof (spec_header_inv _ _ _ Eh) as (_ & _ & _ & _ & E28' & _).
@@ -208,6 +219,7 @@ Proof.
     { constructor; cbn [w_meta w_hdr w_bs]; rewrite ?Ehdr; [exists m, kv, limit, tbl; exact Hread| |exact Ht].
       exists h'. repeat split; [assumption|assumption|now symmetry]. }
     split; [exact HI'|]. split; [now left|]. cbn [w_bs]. split; [lia|]. split; [lia|].
+    split; [intros i _ _; reflexivity|].
     exists (concat tbl). split; [|reflexivity]. rewrite Ehdr. exists m, kv, limit, tbl. now split.
 Qed.
 
@@ -424,7 +436,7 @@ Proof.
   - split; [exact HI|]. now exists rs.
   - destruct Hs as [Hs1 Hs2].
     pose proof (step_inv s o rs HI Hs1 Hr) as P. destruct (step s o) as [r s1]. cbn [fst snd] in *.
-    destruct P as (HI1 & _ & _ & _ & rs1 & Hr1 & Hst).
+    destruct P as (HI1 & _ & _ & _ & _ & rs1 & Hr1 & Hst).
     apply (IH s1 (amap_step m o r) rs1 HI1 Hr1); try assumption.
     eapply repr_step; eassumption.
 Qed.
